@@ -80,6 +80,14 @@ func Run(prop string) func(c *hl.Ctx) error {
 		defer pool.Close()
 		if cs := c.ReplayCase(); cs != nil {
 			in := cs["in"].(map[string]any)
+			if cs["k"] == "import" {
+				var np *string
+				if s, ok := in["newPath"].(string); ok {
+					np = &s
+				}
+				c.Emit(ImportStep(in["text"].(string), in["path"].(string), np))
+				return nil
+			}
 			op := OpFromJSON(in["op"].(map[string]any))
 			rec, _, err := pool.Step(in["text"].(string), op)
 			if err != nil {
@@ -90,6 +98,9 @@ func Run(prop string) func(c *hl.Ctx) error {
 			return nil
 		}
 		r := c.Rand()
+		if prop == "C36" {
+			RunImports(c, r, c.Pick(300, 20000))
+		}
 		nh := c.Pick(map[string]int{"C36": 150, "C37": 200, "C38": 220, "C39": 220, "C40": 220, "C41": 130}[prop], 2500)
 		for h := 0; h < nh; h++ {
 			gen := &Gen{R: r, MaxTop: 4, MaxDepth: 2, Boards: prop == "C41" || h%3 == 0, ForceBoard: prop == "C41",
